@@ -109,7 +109,9 @@ theorem dcFeed_trailer (out : Bytes) : ∀ (t acc : Bytes), t ≠ [] →
     intro acc _ hnul hend hfirst
     rw [dcFeed_cons]
     cases rest with
-    | nil => simp [dcStep, dcFeed_nil, hend, hnul]
+    | nil =>
+      have hn' : ¬ (0 : UInt8) ∈ acc ∧ ¬ (0 : UInt8) = b := by simpa using hnul
+      simp [dcStep, dcFeed_nil, hend, hn'.1, hn'.2]
     | cons c rest' =>
       have hq : endsCrlfCrlf (acc ++ [b]) = false := hfirst [b] (c :: rest') rfl (by simp) (by simp)
       have hstep : dcStep { mode := .trailer acc, out := out } b
